@@ -26,5 +26,20 @@ CLAIMS = {
           'on all strings up to length 4/5 over a 14-symbol alphabet of 1-4 byte chars, operators, digits, quotes, and on every input of every other check.',
   'note': 'next_nstr is the only unsafe block; the translator check of C19 scans /repo/src for any other.',
  },
+ 'C09': {
+  'category': 'proof',
+  'technique': 'Lean 4 theorems about the number-scanner model (text = source run, kind, underscore rule) + exhaustive/sampled differential correspondence + regular-expression oracle of the spec EBNF',
+  'text': 'Proved for every input: the literal text is a prefix of the remaining input and the scanner advances by its length (number_text_is_source), the kind is Integer/Float/Imag decided by fraction/exponent/i (numFinish_text), '
+          'digit runs obey the underscore rule (scanDigitsGo_*). The full equivalence accepted <=> int_lit|float_lit|imaginary_lit is stated over Spec/Numbers.lean and is decided here by exhaustive comparison (all strings to length 4 quick / 5 thorough over the property alphabet, '
+          'sampled to length 7, structured literals to length 14) of implementation, model and an independent regex transcription of the EBNF; partial proof.',
+  'note': 'Enumeration bound is below the property text (6/7) for run time; lengths beyond are sampled, not exhausted.',
+ },
+ 'C10': {
+  'category': 'proof',
+  'technique': 'Lean 4 theorems about the rune/string scanner model (raw strings iff spec, verbatim text) + exhaustive/sampled differential correspondence + spec recogniser oracle',
+  'text': 'Proved for every input: raw strings are accepted exactly per the spec and kept verbatim (raw_iff_spec, raw_sound); every accepted rune / interpreted string text is the source text including quotes (rune_text_is_source, string_text_is_source). '
+          'Acceptance of escapes (digit counts, code point ranges, quote-specific escapes) is decided by exhaustive comparison of implementation, model and an independent recogniser over all bodies to length 3 quick / 4 thorough x 3 quote kinds, sampled to 6, and structured escapes of every form; partial proof.',
+  'note': 'Enumeration bound is below the property text (5/6) for run time; longer bodies are sampled/structured.',
+ },
 }
 NOT_CLAIMED = {}
